@@ -510,6 +510,10 @@ def run_matrices(ck):
 
 
 def run(ck):
+    if ck.shard == 0:
+        # repeat-call monitor (shared, added by the framework owner): history / reused-object / memory-layout independence
+        from .. import repeat
+        repeat.run(ck, PID, repeat.table(PID, ck.rng("repeat")))
     if not token_selftest(ck):
         return
     run_token_sweeps(ck)
